@@ -59,6 +59,36 @@ class WorldScenario(BaseScenario):
             "value pools are restricted to values exactly representable in the stored type",
         ]
 
+    @staticmethod
+    def prelude(sim, what):
+        """Something else the same process did before this history (another workspace, other classes): state the library keeps
+        outside its workspaces -- class attributes, module-level tables -- is part of the world a history runs in."""
+        import numpy as np
+        from geoh5py import Workspace, objects
+
+        ws = Workspace.create(sim.path("prelude.geoh5"))
+        try:
+            if what == "survey_copy":
+                verts = np.c_[np.arange(4.0), np.zeros(4), np.zeros(4)]
+                rx = objects.AirborneTEMReceivers.create(ws, vertices=verts, name="rx")
+                tx = objects.AirborneTEMTransmitters.create(ws, vertices=verts + 1.0, name="tx")
+                rx.transmitters = tx
+                rx.channels = [1.0, 2.0]
+                rx.copy()
+                cur = objects.CurrentElectrode.create(ws, vertices=verts, parts=np.array([0, 0, 1, 1]), name="c")
+                cur.add_default_ab_cell_id()
+                pot = objects.PotentialElectrode.create(ws, vertices=verts, name="p")
+                pot.current_electrodes = cur
+                pot.copy()
+            elif what == "drillholes":
+                grp = __import__("geoh5py").groups.DrillholeGroup.create(ws, name="g")
+                hole = objects.Drillhole.create(ws, parent=grp, collar=[0.0, 0.0, 0.0], name="h")
+                hole.add_data({"a": {"depth": np.arange(3.0), "values": np.arange(3.0)}})
+                grp.copy()
+            sim.probe("prelude:" + what)
+        finally:
+            ws.close()
+
     def make_config(self, rng: random.Random) -> dict:
         cfg = {
             "version": rng.choices([2.1, 2.0, 1.0], [6, 3, 1])[0],
@@ -78,6 +108,8 @@ class WorldScenario(BaseScenario):
         for kind in optional:
             if rng.random() < 0.15:
                 cfg["disabled"].append(kind)
+        if self.prop in ("C12", "C01", "C09"):
+            cfg["prelude"] = rng.choice([None, None, None, "survey_copy", "drillholes"])
         return cfg
 
     def simplify_config(self, cfg):
@@ -113,6 +145,8 @@ class WorldScenario(BaseScenario):
         with sim.running():
             world = World(sim, cfg, self.prop, self.ORACLES[self.prop]())
             try:
+                if cfg.get("prelude"):
+                    self.prelude(sim, cfg["prelude"])
                 world.open_initial()
                 for i in range(n_ops):
                     op = ops[i] if ops is not None else world.gen_op(rng, i)
